@@ -153,6 +153,8 @@ def check_c17(ctx):
     # Stop while the worker is in (or about to enter) waitForTask: empty queue, back-off delay, repeat delay
     behs += gen_behaviours(ctx, num, 60, consts={"StopAfterPicks": "0", "StopAfterOps": "0",
                                                  "StopPcs": '{"select", "shortcut", "top", "get"}'})
+    # Stop before the worker of a (late-created) queue is started: shutdown while the operator is still starting
+    behs += gen_behaviours(ctx, max(100, num // 4), 40, consts={"StopAfterPicks": "0", "StopAfterOps": "0", "StopPcs": '{"notstarted"}'})
     behs = [b for b in behs if any(s["act"][0] == "Stop" for s in b)]
     steps, acts, distinct = replay(ctx, binary, behs, "C17/")
     stop_pcs = {}
